@@ -622,10 +622,11 @@ func (s *Server) writeEndBatch(name string, tmax time.Time, groupInfo edge.Group
 	req := &agent.Request{
 		Message: &agent.Request_End{
 			End: &agent.EndBatch{
-				Name:  name,
-				Group: string(groupInfo.ID),
-				Tmax:  tmax.UnixNano(),
-				Tags:  groupInfo.Tags,
+				Name:   name,
+				Group:  string(groupInfo.ID),
+				Tmax:   tmax.UnixNano(),
+				ByName: groupInfo.Dimensions.ByName,
+				Tags:   groupInfo.Tags,
 			},
 		},
 	}
